@@ -165,7 +165,7 @@ CHECKS["C01"] = dict(
     rule="one run = one seeded op history on one list family. non-trivial = at least two lists were non-empty at once, a move happened and a linked node died "
          "(slist/hlist: a pop and a removal happened); distinct = distinct hash of the executed op trace",
     simtime_units="list operations",
-    probes=["self_move", "move_to_neighbour", "single_element_move", "splice_into_nonempty", "splice_from_empty", "destroy_linked_head_neighbour", "second_removal", "reinsert_linked_node", "sorted_insert", "insert_instead"],
+    probes=["self_move", "move_to_neighbour", "single_element_move", "splice_into_nonempty", "splice_from_empty", "destroy_linked_head_neighbour", "second_removal", "reinsert_linked_node", "sorted_insert", "insert_instead", "head_takeover", "takeover_of_empty_list", "insert_instead_of_unlinked"],
     assumptions=["single caller at a time", "freeing a still-linked C node is caller misuse and is not generated"],
 )
 
